@@ -200,7 +200,8 @@ impl Freelist {
     }
 
     pub fn allocate<S: Storage>(&mut self, storage: &mut S) -> Result<Option<u32>> {
-        if self.is_empty() {
+        // head_page == 0 means "no trunk": page 0 is the file header, never a trunk.
+        if self.is_empty() || self.head_page == 0 {
             return Ok(None);
         }
 
@@ -213,13 +214,12 @@ impl Freelist {
         };
 
         if count == 0 {
-            if next_trunk == 0 {
-                self.head_page = 0;
-                self.free_count = 0;
-                return Ok(None);
-            }
+            // The head trunk holds no entries: the trunk page itself is the free page
+            // (release() counted it in free_count when it turned it into a trunk).
+            let page_no = self.head_page;
             self.head_page = next_trunk;
-            return self.allocate(storage);
+            self.free_count -= 1;
+            return Ok(Some(page_no));
         }
 
         let entry_index = (count - 1) as usize;
@@ -245,10 +245,7 @@ impl Freelist {
         trunk.set_count(count - 1);
         self.free_count -= 1;
 
-        if count - 1 == 0 {
-            self.head_page = next_trunk;
-        }
-
+        // An emptied trunk stays at the head: the next allocate() hands out its page.
         Ok(Some(page_no))
     }
 
